@@ -41,6 +41,12 @@ def run(ctx):
     ctx.sample({"kind": "cmap", "program": bytes(cm[7]["program"]).decode("latin1"), "codes": cm[7]["codes"], "expect": cm[7]["expect"]})
     ctx.sample([c for c in cases if c["kind"] == "utf16"][9])
     res = absorb(ctx, ctx.run_driver(["c07", "replay"], cases))
+    # font dictionaries: which base encoding the dictionary of a simple font selects (FontDict.tla)
+    fdc = ctx.tlc("FontDict", "FontDict_gen.cfg", workers=1, collect=True)["cases"]
+    if not fdc:
+        raise vlib.MachineryError("no font dictionary cases")
+    ctx.extra["font_dictionaries"] = len(fdc)
+    res += absorb(ctx, ctx.run_driver(["c07", "fontdict"], fdc))
     mach = [r for r in res if (r.get("sig") or "").startswith("MACHINERY")]
     if mach:
         raise vlib.MachineryError(mach[0]["what"])
